@@ -140,6 +140,24 @@ func init() {
 		}
 		return m.mkInt(m.Concretize(t, "NondetLen"))
 	})
+	reg(rtPkg+".NondetRange", func(m *Machine, a []Value) Value {
+		lo, hi := concInt(m, a[0], "lo"), concInt(m, a[1], "hi")
+		if m.Cfg.IsConc || !m.IntMode() {
+			t := m.nondetScalar("i64", numT{64, true})
+			if m.IntMode() {
+				m.Assume(smt.And(smt.ILe(smt.IntConstI(lo), t), smt.ILe(t, smt.IntConstI(hi))))
+			} else {
+				m.Assume(smt.And(smt.BvSle(smt.BVConst(64, uint64(lo)), t), smt.BvSle(t, smt.BVConst(64, uint64(hi)))))
+			}
+			return t
+		}
+		idx := len(m.nondets)
+		name := fmt.Sprintf("nd%d_rng_%d_%d", idx, lo, hi)
+		name = strings.ReplaceAll(name, "-", "m")
+		t := smt.IntVarBounded(name, big.NewInt(lo), big.NewInt(hi))
+		m.nondets = append(m.nondets, Nondet{Name: name, T: t, Kind: "i64"})
+		return t
+	})
 	reg(rtPkg+".Assume", func(m *Machine, a []Value) Value {
 		m.Assume(a[0].(*smt.Term))
 		return nil
@@ -305,6 +323,28 @@ func init() {
 	})
 	reg("strings.Clone", func(m *Machine, a []Value) Value { return a[0] })
 	reg("internal/stringslite.Clone", func(m *Machine, a []Value) Value { return a[0] })
+
+	// ----- strconv formatting (decimal) -----
+	fmtDec := func(m *Machine, t *smt.Term, nt numT, base int64) Value {
+		if t.IsConst() {
+			v := t.BigVal()
+			if !m.IntMode() && nt.signed {
+				v = t.SignedVal()
+			}
+			return StrVal{S: v.Text(int(base))}
+		}
+		if base != 10 || !m.IntMode() {
+			m.unsupported("strconv formatting of a symbolic value (base %d, mode %s)", base, m.Cfg.Mode)
+		}
+		return m.bigText(t)
+	}
+	reg("strconv.Itoa", func(m *Machine, a []Value) Value { return fmtDec(m, a[0].(*smt.Term), numT{64, true}, 10) })
+	reg("strconv.FormatInt", func(m *Machine, a []Value) Value {
+		return fmtDec(m, a[0].(*smt.Term), numT{64, true}, concInt(m, a[1], "base"))
+	})
+	reg("strconv.FormatUint", func(m *Machine, a []Value) Value {
+		return fmtDec(m, a[0].(*smt.Term), numT{64, false}, concInt(m, a[1], "base"))
+	})
 
 	// ----- errors / fmt -----
 	reg("fmt.Errorf", func(m *Machine, a []Value) Value {
